@@ -1,8 +1,11 @@
 import DinoProofs.Lemmas.Shard
 import DinoProofs.Lemmas.ShardPad
 import DinoProofs.Lemmas.ShardBasis
+import DinoProofs.Lemmas.ShardGarbage
 import DinoProofs.Lemmas.ShardBlock
+import DinoProofs.Lemmas.ShardArrays
 import DinoProofs.Lemmas.ShardEinsum
+import DinoProofs.Lemmas.ShardEinsumMat
 import DinoProofs.Properties.C15
 import Mathlib.Algebra.Order.Floor.Ring
 
@@ -224,6 +227,112 @@ theorem out_shards_reassemble (A B : List (List K)) (n r w : Nat) (hr : 0 < r) (
   have hl : (matMul A B w).length = n * r := by simp [matMul, hA]
   exact ⟨splitEvery_flatten r hr n _ hl, fun a ha => getD_splitEvery _ n r a hr hl ha⟩
 
+/-! ### the same conclusions as ARRAYS (shapes included)
+
+The four theorems above are *entrywise*: both sides are entry functions `ℕ → ℕ → K` (default `0`), and the shape of
+`A` is unconstrained.  With `A : (n·r) × _` and `B : (n·k) × w` every chunk product the collectives form and every
+output shard is a list of exactly `r` rows of width `w` (`collective_operand_shapes`), so the schedules can be run
+with the accumulator `ShapedMat K r w` — arrays of that shape with the rowwise `zipWith (· + ·)` of the executable
+model (`accum += …`) — and the conclusions become equalities of lists of rows. -/
+
+/-- shapes of both sides: for `A` of `n·r` rows and `B` of rows of width `w`, the output shard of device `a < n`
+ and every chunk product of both collectives are `r × w` arrays -/
+theorem collective_operand_shapes (A B : List (List K)) (n k r w a c : Nat) (hA : A.length = n * r)
+    (hw : ∀ row ∈ B, row.length = w) (ha : a < n) :
+    ((rowChunk (matMul A B w) a r).length = r ∧ ∀ row ∈ rowChunk (matMul A B w) a r, row.length = w)
+    ∧ ((matMul (colChunk (rowChunk A a r) c k) (rowChunk B c k) w).length = r
+        ∧ ∀ row ∈ matMul (colChunk (rowChunk A a r) c k) (rowChunk B c k) w, row.length = w)
+    ∧ ((matMul (rowChunk (colChunk A c k) a r) (rowChunk B c k) w).length = r
+        ∧ ∀ row ∈ matMul (rowChunk (colChunk A c k) a r) (rowChunk B c k) w, row.length = w) := by
+  have hB' : ∀ row ∈ rowChunk B c k, row.length = w := rowChunk_rows B c k w hw
+  have hlen : (colChunk (rowChunk A a r) c k).length = r := by
+    rw [colChunk_length, rowChunk_length_eq A n r a hA ha]
+  refine ⟨⟨rowChunk_length_eq _ n r a (by rw [matMul_length, hA]) ha,
+      rowChunk_rows _ a r w (matMul_rows A B w hw)⟩,
+    ⟨by rw [matMul_length, hlen], matMul_rows _ _ w hB'⟩,
+    ⟨by rw [rowChunk_colChunk, matMul_length, hlen], matMul_rows _ _ w hB'⟩⟩
+
+/-- the entry functions of the entrywise theorems vanish outside the `r × w` shape of the shard -/
+theorem unsharded_shard_entries_outside (A B : List (List K)) (n r w a : Nat) (hA : A.length = n * r)
+    (hw : ∀ row ∈ B, row.length = w) (ha : a < n) (i j : Nat) (h : r ≤ i ∨ w ≤ j) :
+    ent2 (rowChunk (matMul A B w) a r) i j = 0 := by
+  obtain ⟨⟨h1, h2⟩, _⟩ := collective_operand_shapes A B n 0 r w a 0 hA hw ha
+  exact ent2_outside _ r w h1 h2 i j h
+
+/-- **T7.1 as arrays.**  With the accumulator `ShapedMat K r w` (lists of `r` rows of width `w`, rowwise
+ `zipWith (· + ·)`), device `a` of the all-gather matmul ends with the LIST OF ROWS `rowChunk (A·B) a r`. -/
+theorem allgatherMatmul_unsharded_arrays (A B : List (List K)) (n k r w : Nat)
+    (hn : n = 1 ∨ (n % 2 = 0 ∧ 0 < n)) (hk : 0 < k) (hA : A.length = n * r) (hB : B.length = n * k)
+    (hw : ∀ row ∈ B, row.length = w) :
+    (allgatherMatmul (mmShaped r w) [] (fun a c => colChunk (rowChunk A a r) c k) (splitEvery k B)).map
+        (fun devs => devs.map ShapedMat.val)
+      = some ((List.range n).map fun a => rowChunk (matMul A B w) a r) := by
+  rw [allgatherMatmul_sum _ _ _ _ n (length_splitEvery B n k hk hB) hn]
+  simp only [Option.map_some, List.map_map]
+  congr 1
+  apply List.map_congr_left
+  intro a ha
+  rw [List.mem_range] at ha
+  simp only [Function.comp]
+  obtain ⟨⟨h1, h2⟩, _⟩ := collective_operand_shapes A B n k r w a 0 hA hw ha
+  apply mat_ext_of_ent2 _ _ r w (ShapedMat.length_val _) h1 (ShapedMat.rows_val _) h2
+  rw [ShapedMat.ent2_sum, block_decomposition_rows, ← block_contraction (rowChunk A a r) B n k w (by omega) hw]
+  apply Finset.sum_congr rfl
+  intro c hc
+  rw [getD_splitEvery B n k c hk hB (Finset.mem_range.1 hc),
+    mmShaped_val r w _ _ (by rw [colChunk_length, rowChunk_length_eq A n r a hA ha]) (rowChunk_rows B c k w hw)]
+
+/-- **T7.2 as arrays.**  Device `a` of the reduce-scatter matmul ends with the list of rows `rowChunk (A·B) a r`. -/
+theorem matmulReducescatter_unsharded_arrays (A B : List (List K)) (n k r w : Nat)
+    (hn : n = 1 ∨ (n % 2 = 0 ∧ 0 < n)) (hk : 0 < k) (hA : A.length = n * r) (hB : B.length = n * k)
+    (hw : ∀ row ∈ B, row.length = w) :
+    (matmulReducescatter (mmShaped r w) [] (fun s a => rowChunk (colChunk A s k) a r) (splitEvery k B)).map
+        (fun devs => devs.map ShapedMat.val)
+      = some ((List.range n).map fun a => rowChunk (matMul A B w) a r) := by
+  rw [matmulReducescatter_sum _ _ _ _ n (length_splitEvery B n k hk hB) hn]
+  simp only [Option.map_some, List.map_map]
+  congr 1
+  apply List.map_congr_left
+  intro a ha
+  rw [List.mem_range] at ha
+  simp only [Function.comp]
+  obtain ⟨⟨h1, h2⟩, _⟩ := collective_operand_shapes A B n k r w a 0 hA hw ha
+  apply mat_ext_of_ent2 _ _ r w (ShapedMat.length_val _) h1 (ShapedMat.rows_val _) h2
+  rw [ShapedMat.ent2_sum, block_decomposition_rows, ← block_contraction (rowChunk A a r) B n k w (by omega) hw]
+  apply Finset.sum_congr rfl
+  intro c hc
+  rw [getD_splitEvery B n k c hk hB (Finset.mem_range.1 hc),
+    mmShaped_val r w _ _ (by rw [rowChunk_colChunk, colChunk_length, rowChunk_length_eq A n r a hA ha])
+      (rowChunk_rows B c k w hw), rowChunk_colChunk]
+
+/-- **reassembly as arrays.**  Concatenating the per-device results (the `shard_map` out-spec along the leading
+ axis) of either collective gives the unsharded product `A · B` itself, as a list of rows. -/
+theorem collectives_arrays_reassemble (A B : List (List K)) (n k r w : Nat)
+    (hn : n = 1 ∨ (n % 2 = 0 ∧ 0 < n)) (hk : 0 < k) (hr : 0 < r) (hA : A.length = n * r) (hB : B.length = n * k)
+    (hw : ∀ row ∈ B, row.length = w) :
+    (allgatherMatmul (mmShaped r w) [] (fun a c => colChunk (rowChunk A a r) c k) (splitEvery k B)).map
+        (fun devs => (devs.map ShapedMat.val).flatten) = some (matMul A B w)
+    ∧ (matmulReducescatter (mmShaped r w) [] (fun s a => rowChunk (colChunk A s k) a r) (splitEvery k B)).map
+        (fun devs => (devs.map ShapedMat.val).flatten) = some (matMul A B w) := by
+  have hl : (matMul A B w).length = n * r := by rw [matMul_length, hA]
+  have hfl : ((List.range n).map fun a => rowChunk (matMul A B w) a r).flatten = matMul A B w := by
+    rw [map_rowChunk_eq_splitEvery _ n r hr hl, splitEvery_flatten r hr n _ hl]
+  have h1 := allgatherMatmul_unsharded_arrays A B n k r w hn hk hA hB hw
+  have h2 := matmulReducescatter_unsharded_arrays A B n k r w hn hk hA hB hw
+  constructor
+  · cases hag : allgatherMatmul (mmShaped r w) [] (fun a c => colChunk (rowChunk A a r) c k) (splitEvery k B) with
+    | none => rw [hag] at h1; cases h1
+    | some devs =>
+      rw [hag] at h1
+      simp only [Option.map_some, Option.some.injEq] at h1 ⊢
+      rw [h1, hfl]
+  · cases hrs : matmulReducescatter (mmShaped r w) [] (fun s a => rowChunk (colChunk A s k) a r) (splitEvery k B) with
+    | none => rw [hrs] at h2; cases h2
+    | some devs =>
+      rw [hrs] at h2
+      simp only [Option.map_some, Option.some.injEq] at h2 ⊢
+      rw [h2, hfl]
+
 /-- non-vacuity: 2 devices, `A` 2×4, `B` 4×2 (`k = 2`, `r = 1`); the hypotheses hold and the entries of the
  result are those of the unsharded product -/
 def aEx : List (List ℤ) := [[1, 2, 3, 4], [5, 6, 7, 8]]
@@ -240,6 +349,17 @@ example : matmulReducescatter (mmEnt 2) [] (fun s a => rowChunk (colChunk aEx s 
 example : matMul aEx bEx' 2 = [[11, 17], [27, 37]] ∧ rowChunk (matMul aEx bEx' 2) 1 1 = [[27, 37]]
     ∧ colChunk (rowChunk aEx 1 1) 1 2 = [[7, 8]] ∧ splitEvery 2 bEx' = [[[1, 0], [0, 1]], [[2, 1], [1, 3]]] := by
   decide +kernel
+
+/-- non-vacuity of the array forms on the same operands: the per-device lists of rows, and their concatenation -/
+example : (allgatherMatmul (mmShaped 1 2) [] (fun a c => colChunk (rowChunk aEx a 1) c 2) (splitEvery 2 bEx')).map
+      (fun devs => devs.map ShapedMat.val) = some [[[11, 17]], [[27, 37]]] := by
+  rw [allgatherMatmul_unsharded_arrays aEx bEx' 2 2 1 2 (Or.inr ⟨rfl, by omega⟩) (by omega) rfl rfl (by decide)]
+  decide +kernel
+
+example : (matmulReducescatter (mmShaped 1 2) [] (fun s a => rowChunk (colChunk aEx s 2) a 1) (splitEvery 2 bEx')).map
+      (fun devs => (devs.map ShapedMat.val).flatten) = some (matMul aEx bEx' 2) :=
+  (collectives_arrays_reassemble aEx bEx' 2 2 1 2 (Or.inr ⟨rfl, by omega⟩) (by omega) (by omega) rfl rfl
+    (by decide)).2
 
 end full
 
@@ -402,6 +522,105 @@ example :
   decide +kernel
 
 end einsum
+
+/-! ## from the plan to the collectives: `sharded_einsum` on the matrix pattern (PARTIAL)
+
+`plan_spec` characterises the *decisions* of `sharded_einsum`, the `…_unsharded` theorems *assume* the block layout
+`colChunk (rowChunk A a r) c k` / `rowChunk (colChunk A s k) a r` / `splitEvery k B`.  `Dino.ShardEinsum.shardedEinsumMat`
+(`Dino/ShardEinsumMat.lean`, driver op `shard F semat`, compared with the real `sharded_einsum` by the harness) mirrors
+what lies between them for two 2-D operands on a one-axis mesh: the `shard_map` blocks cut by `lhs_spec` / `rhs_spec`
+and the `dynamic_slice_in_dim` chunks of size `block.shape[axis] // axis_size` along `split_axis` / `scatter_axis`. -/
+
+section composed
+open Dino.ShardEinsum Dino.Lin
+variable {K : Type} [CommRing K]
+
+/-- **`sharded_einsum = einsum` in the model — PARTIAL: the matrix pattern only.**
+
+ FULL STATEMENT (NOT proved; covered by the schedule trace and the sharded-vs-unsharded differential of the harness):
+ for every subscripts string, operand shapes of any rank (batch letters), `gather_inputs`, `rhs_spec`, `out_spec`
+ accepted by `plan` on a mesh whose reduce axis has size 1 or even, the per-device results of the collective selected
+ by the plan, run on the `shard_map` blocks of `lhs` (cut by `p.lhsSpec`) and `rhs` (cut by `rhs_spec`) with the chunks
+ `dynamic_slice_in_dim(block, c · size, size, p.axis)`, are the `out_spec` blocks of `einsum2 dims l r o lhs rhs`.
+
+ PROVED HERE: two 2-D operands, subscripts `"ik,kj->ij"` for any three distinct ASCII word letters, one mesh axis
+ `name` of size `n` (`1` or even), `rhs_spec = out_spec = P(name, None)`, `A : (n·r) × (n·kk)`, `B : (n·kk) × w`,
+ every `gather_inputs` (explicit or by data volume).  Then `plan` succeeds, the chunking it induces IS the
+ `rowChunk` / `colChunk` / `splitEvery` chunking of `allgatherMatmul_unsharded` / `matmulReducescatter_unsharded`, device
+ `a` ends with rows chunk `a` of `A · B` (entrywise, and as an `r × w` array), and `A · B` is `einsum2` of the pattern. -/
+theorem shardedEinsum_matrix_partial (i k j : Char) (hi : isWord i = true) (hk : isWord k = true)
+    (hj : isWord j = true) (hik : i ≠ k) (hkj : k ≠ j) (hij : i ≠ j) (name : String) (g : Option Bool)
+    (A B : List (List K)) (n kk r w : Nat) (hn : n = 1 ∨ (n % 2 = 0 ∧ 0 < n)) (hkk : 0 < kk)
+    (hA : A.length = n * r) (hB : B.length = n * kk) (hw : ∀ row ∈ B, row.length = w) :
+    ∃ p, plan (joinSubscripts [i, k] [k, j] [i, j]) [n * r, n * kk] [n * kk, w] g [some name, none] [some name, none]
+          = .ok p
+      ∧ shardedEinsumMat (mmEnt w) p n (n * r, n * kk) (n * kk) A B
+          = some ((List.range n).map fun a => ent2 (rowChunk (matMul A B w) a r))
+      ∧ (shardedEinsumMat (mmShaped r w) p n (n * r, n * kk) (n * kk) A B).map (fun devs => devs.map ShapedMat.val)
+          = some ((List.range n).map fun a => rowChunk (matMul A B w) a r)
+      ∧ ∀ (dims : Char → Nat), B.length ≤ dims k → ∀ env,
+          einsum2 dims [i, k] [k, j] [i, j] (matOperand A) (matOperand B) env
+            = ent2 (matMul A B w) (env i) (env j) := by
+  have hn0 : 0 < n := by rcases hn with rfl | ⟨_, h⟩ <;> omega
+  refine ⟨_, plan_matrix i k j hi hk hj hik hkj hij name _ _ g, ?_, ?_,
+    fun dims hd env => einsum2_matrix i k j (isWord_ascii k hk) hik hkj dims A B w hw hd env⟩
+  · unfold shardedEinsumMat matrixPlan
+    cases chooseGather g (prodL (outShape [i, k] [k, j] [i, j] [n * r, n * kk] [n * kk, w])) (prodL [n * kk, w])
+    · simp only [Bool.false_eq_true, if_false, Nat.mul_div_cancel_left kk hn0]
+      rw [show (fun d c => sliceAxis 0 (shardBlock [none, some name] name n (n * r, n * kk) A d) c
+            (shapeAt (blockShape [none, some name] name n (n * r, n * kk)) 0 / n))
+          = fun s a => rowChunk (colChunk A s kk) a r from by
+        funext s a; exact chunks_scatter name n kk r hn0 A s a]
+      exact matmulReducescatter_unsharded A B n kk r w hn hkk hB hw
+    · simp only [if_true, Nat.mul_div_cancel_left kk hn0]
+      rw [show (fun d c => sliceAxis 1 (shardBlock [some name, none] name n (n * r, n * kk) A d) c
+            (shapeAt (blockShape [some name, none] name n (n * r, n * kk)) 1 / n))
+          = fun a c => colChunk (rowChunk A a r) c kk from by
+        funext a c; exact chunks_gather name n kk r hn0 A a c]
+      exact allgatherMatmul_unsharded A B n kk r w hn hkk hB hw
+  · unfold shardedEinsumMat matrixPlan
+    cases chooseGather g (prodL (outShape [i, k] [k, j] [i, j] [n * r, n * kk] [n * kk, w])) (prodL [n * kk, w])
+    · simp only [Bool.false_eq_true, if_false, Nat.mul_div_cancel_left kk hn0]
+      rw [show (fun d c => sliceAxis 0 (shardBlock [none, some name] name n (n * r, n * kk) A d) c
+            (shapeAt (blockShape [none, some name] name n (n * r, n * kk)) 0 / n))
+          = fun s a => rowChunk (colChunk A s kk) a r from by
+        funext s a; exact chunks_scatter name n kk r hn0 A s a]
+      exact matmulReducescatter_unsharded_arrays A B n kk r w hn hkk hA hB hw
+    · simp only [if_true, Nat.mul_div_cancel_left kk hn0]
+      rw [show (fun d c => sliceAxis 1 (shardBlock [some name, none] name n (n * r, n * kk) A d) c
+            (shapeAt (blockShape [some name, none] name n (n * r, n * kk)) 1 / n))
+          = fun a c => colChunk (rowChunk A a r) c kk from by
+        funext a c; exact chunks_gather name n kk r hn0 A a c]
+      exact allgatherMatmul_unsharded_arrays A B n kk r w hn hkk hA hB hw
+
+/-- non-vacuity: `sharded_einsum('ik,kj->ij', aEx, bEx', rhs_spec=P('x', None), out_spec=P('x', None))` on 2 devices,
+ default strategy (the volumes 2·2 vs 4·2 select reduce-scatter) and forced gather; the per-device arrays -/
+example : plan "ik,kj->ij".toList [2, 4] [4, 2] none [some "x", none] [some "x", none]
+      = .ok (matrixPlan 'i' 'k' "x" false)
+    ∧ plan "ik,kj->ij".toList [2, 4] [4, 2] (some true) [some "x", none] [some "x", none]
+      = .ok (matrixPlan 'i' 'k' "x" true) := by
+  constructor <;> decide +kernel
+
+example : (shardedEinsumMat (mmShaped 1 2) (matrixPlan 'i' 'k' "x" false) 2 (2, 4) 4 aEx bEx').map
+      (fun devs => devs.map ShapedMat.val) = some [[[11, 17]], [[27, 37]]]
+    ∧ (shardedEinsumMat (mmShaped 1 2) (matrixPlan 'i' 'k' "x" true) 2 (2, 4) 4 aEx bEx').map
+      (fun devs => devs.map ShapedMat.val) = some [[[11, 17]], [[27, 37]]] := by
+  obtain ⟨p, hp, _, h3, _⟩ := shardedEinsum_matrix_partial 'i' 'k' 'j' (by decide) (by decide) (by decide) (by decide)
+    (by decide) (by decide) "x" (some false) aEx bEx' 2 2 1 2 (Or.inr ⟨rfl, by omega⟩) (by omega) rfl rfl (by decide)
+  obtain ⟨q, hq, _, h3', _⟩ := shardedEinsum_matrix_partial 'i' 'k' 'j' (by decide) (by decide) (by decide) (by decide)
+    (by decide) (by decide) "x" (some true) aEx bEx' 2 2 1 2 (Or.inr ⟨rfl, by omega⟩) (by omega) rfl rfl (by decide)
+  have hp' : p = matrixPlan 'i' 'k' "x" false := by
+    have : plan "ik,kj->ij".toList [2 * 1, 2 * 2] [2 * 2, 2] (some false) [some "x", none] [some "x", none]
+        = .ok (matrixPlan 'i' 'k' "x" false) := by decide +kernel
+    exact (Except.ok.inj (hp.symm.trans this))
+  have hq' : q = matrixPlan 'i' 'k' "x" true := by
+    have : plan "ik,kj->ij".toList [2 * 1, 2 * 2] [2 * 2, 2] (some true) [some "x", none] [some "x", none]
+        = .ok (matrixPlan 'i' 'k' "x" true) := by decide +kernel
+    exact (Except.ok.inj (hq.symm.trans this))
+  subst hp' hq'
+  refine ⟨h3.trans ?_, h3'.trans ?_⟩ <;> decide +kernel
+
+end composed
 
 /-! ## T7.3 — the parallel prefix sum -/
 
@@ -817,6 +1036,118 @@ theorem fastAnalysisStacked_padded (b : Basis K) (N H J L npx npy hx mpy : Nat)
       (fwdFourier_rows _ _ H J hwz),
     stackM_padMat _ _ L hx mpy (by simp [fwdLegendre_length, fwdFourier, transposeM])]
 
+/-! ### T7.4, second form — ARBITRARY content on the padding of the input
+
+The theorems above take the zero-padded input `padMat x …`.  The padded Legendre table, Fourier matrix and
+quadrature weights are zero on the padding, so the padded transforms do not depend on what the input holds there:
+for ANY array `x'` of the padded shape that agrees with `x` on the resolved block (`cropMat x' … = x`; the padding
+rows and columns of `x'` are unconstrained), the padded transform of `x'` is the zero-padded unpadded transform of
+`x` — resolved entries unchanged, everything written on the output padding exactly zero.  (The harness probes
+`to_nodal_garbage` / `to_modal_garbage` and the `… [garbage on the padding]` correspondence run the real transforms on
+such inputs.) -/
+
+/-- the padded synthesis sees a padded modal array only through its resolved block -/
+theorem fastSynth_padding_irrelevant (b : Basis K) (N H J L npy hx mpy : Nat) (hb : FastShaped b N H J L)
+    (x' : List (List K)) (hxl : x'.length = 2 * H + 2 * hx) (hxr : ∀ r ∈ x', r.length = L + mpy) :
+    invLegendre (padTable b.p J L hx npy mpy) (evens x')
+        = invLegendre (padTable b.p J L hx npy mpy) (evens (padMat (cropMat x' (2 * H) L) L (2 * hx) mpy))
+    ∧ invLegendre (padTable b.p J L hx npy mpy) (odds x')
+        = invLegendre (padTable b.p J L hx npy mpy) (odds (padMat (cropMat x' (2 * H) L) L (2 * hx) mpy)) := by
+  have hcl : (cropMat x' (2 * H) L).length = 2 * H := cropMat_length x' (2 * H) L (by omega)
+  have hcr : ∀ r ∈ cropMat x' (2 * H) L, r.length = L :=
+    cropMat_rows x' (2 * H) L (fun r hr => by rw [hxr r hr]; omega)
+  have he : (evens (cropMat x' (2 * H) L)).length = H := by rw [evens_length, hcl]; omega
+  have ho : (odds (cropMat x' (2 * H) L)).length = H := by rw [odds_length, hcl]; omega
+  constructor
+  · rw [invLegendre_pad_any b.p (evens x') J L hx npy mpy (by rw [evens_length, hxl, hb.pl]; omega) hb.pll
+        (fun r hr => hxr r (mem_evens x' r hr)),
+      hb.pl, cropMat_evens, evens_padMat _ L hx mpy (by omega),
+      invLegendre_pad b.p _ J L hx npy mpy (by rw [hb.pl, he]) hb.pll (fun r hr => hcr r (mem_evens _ r hr))]
+  · rw [invLegendre_pad_any b.p (odds x') J L hx npy mpy (by rw [odds_length, hxl, hb.pl]; omega) hb.pll
+        (fun r hr => hxr r (mem_odds x' r hr)),
+      hb.pl, cropMat_odds, odds_padMat _ L hx mpy (by omega),
+      invLegendre_pad b.p _ J L hx npy mpy (by rw [hb.pl, ho]) hb.pll (fun r hr => hcr r (mem_odds _ r hr))]
+
+/-- **T7.4, arbitrary padding content** synthesis (`inverse_transform`, unstacked Fourier step): `x'` is any modal
+ array of the padded shape `(2H + 2·hx) × (L + mpy)` that agrees with `x` on the resolved block -/
+theorem fastSynth_padded_any (b : Basis K) (N H J L npx npy hx mpy : Nat) (hb : FastShaped b N H J L)
+    (x x' : List (List K)) (hxl : x'.length = 2 * H + 2 * hx) (hxr : ∀ r ∈ x', r.length = L + mpy)
+    (hagree : cropMat x' (2 * H) L = x) :
+    fastSynth (padBasis b (2 * H) J L npx npy (2 * hx) mpy) (J + npy) x'
+      = padMat (fastSynth b J x) J npx npy := by
+  subst hagree
+  obtain ⟨hE, hO⟩ := fastSynth_padding_irrelevant b N H J L npy hx mpy hb x' hxl hxr
+  rw [← fastSynth_padded b N H J L npx npy hx mpy hb _ (cropMat_length x' (2 * H) L (by omega))
+    (cropMat_rows x' (2 * H) L (fun r hr => by rw [hxr r hr]; omega))]
+  unfold fastSynth padBasis
+  simp only [half_double]
+  rw [hE, hO]
+
+/-- **T7.4, arbitrary padding content** synthesis with the stacked Fourier step -/
+theorem fastSynthStacked_padded_any (b : Basis K) (N H J L npx npy hx mpy : Nat) (hb : FastShaped b N H J L)
+    (x x' : List (List K)) (hxl : x'.length = 2 * H + 2 * hx) (hxr : ∀ r ∈ x', r.length = L + mpy)
+    (hagree : cropMat x' (2 * H) L = x) :
+    fastSynthStacked (padBasis b (2 * H) J L npx npy (2 * hx) mpy) (J + npy) x'
+      = padMat (fastSynthStacked b J x) J npx npy := by
+  subst hagree
+  obtain ⟨hE, hO⟩ := fastSynth_padding_irrelevant b N H J L npy hx mpy hb x' hxl hxr
+  rw [← fastSynthStacked_padded b N H J L npx npy hx mpy hb _ (cropMat_length x' (2 * H) L (by omega))
+    (cropMat_rows x' (2 * H) L (fun r hr => by rw [hxr r hr]; omega))]
+  unfold fastSynthStacked padBasis
+  simp only [half_double]
+  rw [hE, hO]
+
+/-- **T7.4, arbitrary padding content** analysis (`transform`, unstacked Fourier step): `z'` is any nodal array of
+ the padded shape `(N + npx) × (J + npy)` that agrees with `z` on the resolved block -/
+theorem fastAnalysis_padded_any (b : Basis K) (N H J L npx npy hx mpy : Nat) (hb : FastShaped b N H J L)
+    (z z' : List (List K)) (hzl : z'.length = N + npx) (hzr : ∀ r ∈ z', r.length = J + npy)
+    (hagree : cropMat z' N J = z) :
+    fastAnalysis (padBasis b (2 * H) J L npx npy (2 * hx) mpy) (2 * H + 2 * hx) (J + npy) (L + mpy) z'
+      = padMat (fastAnalysis b (2 * H) J L z) L (2 * hx) mpy := by
+  subst hagree
+  have hcl : (cropMat z' N J).length = N := cropMat_length z' N J (by omega)
+  have hcr : ∀ r ∈ cropMat z' N J, r.length = J := cropMat_rows z' N J (fun r hr => by rw [hzr r hr]; omega)
+  have hF : fwdFourier (padMat b.f (2 * H) npx (2 * hx)) (weight (b.w ++ zerosN npy) z') (2 * H + 2 * hx) (J + npy)
+      = fwdFourier (padMat b.f (2 * H) npx (2 * hx)) (weight (b.w ++ zerosN npy) (padMat (cropMat z' N J) J npx npy))
+          (2 * H + 2 * hx) (J + npy) := by
+    rw [fwdFourier_weight_pad_any b.f b.w z' N (2 * H) J npx (2 * hx) npy hb.fr hb.fl hb.wl hzl hzr,
+      weight_pad b.w _ J npx npy hb.wl hcr,
+      fwdFourier_pad b.f _ (2 * H) J npx (2 * hx) npy hb.fr (by simp [weight, hb.fl, hcl])
+        (weight_rows' b.w _ J hb.wl hcr)]
+  rw [← fastAnalysis_padded b N H J L npx npy hx mpy hb _ hcl hcr]
+  unfold fastAnalysis padBasis
+  simp only
+  rw [hF]
+
+/-- **T7.4, arbitrary padding content** analysis with the stacked Fourier step -/
+theorem fastAnalysisStacked_padded_any (b : Basis K) (N H J L npx npy hx mpy : Nat) (hb : FastShaped b N H J L)
+    (z z' : List (List K)) (hzl : z'.length = N + npx) (hzr : ∀ r ∈ z', r.length = J + npy)
+    (hagree : cropMat z' N J = z) :
+    fastAnalysisStacked (padBasis b (2 * H) J L npx npy (2 * hx) mpy) (2 * H + 2 * hx) (J + npy) (L + mpy) z'
+      = padMat (fastAnalysisStacked b (2 * H) J L z) L (2 * hx) mpy := by
+  subst hagree
+  have hcl : (cropMat z' N J).length = N := cropMat_length z' N J (by omega)
+  have hcr : ∀ r ∈ cropMat z' N J, r.length = J := cropMat_rows z' N J (fun r hr => by rw [hzr r hr]; omega)
+  have hfe : ∀ fi ∈ b.f.map evens, fi.length = H := by
+    intro fi hfi; obtain ⟨f0, hf0, rfl⟩ := List.mem_map.1 hfi
+    rw [evens_length, hb.fr f0 hf0]; omega
+  have hfo : ∀ fi ∈ b.f.map odds, fi.length = H := by
+    intro fi hfi; obtain ⟨f0, hf0, rfl⟩ := List.mem_map.1 hfi
+    rw [odds_length, hb.fr f0 hf0]; omega
+  have hF : ∀ f0 : List (List K), (∀ fi ∈ f0, fi.length = H) → f0.length = N →
+      fwdFourier (padMat f0 H npx hx) (weight (b.w ++ zerosN npy) z') (H + hx) (J + npy)
+        = fwdFourier (padMat f0 H npx hx) (weight (b.w ++ zerosN npy) (padMat (cropMat z' N J) J npx npy))
+            (H + hx) (J + npy) := by
+    intro f0 hf0 hf0l
+    rw [fwdFourier_weight_pad_any f0 b.w z' N H J npx hx npy hf0 hf0l hb.wl hzl hzr,
+      weight_pad b.w _ J npx npy hb.wl hcr,
+      fwdFourier_pad f0 _ H J npx hx npy hf0 (by simp [weight, hf0l, hcl]) (weight_rows' b.w _ J hb.wl hcr)]
+  rw [← fastAnalysisStacked_padded b N H J L npx npy hx mpy hb _ hcl hcr]
+  unfold fastAnalysisStacked padBasis
+  simp only [show (2 * H + 2 * hx) / 2 = H + hx by omega]
+  rw [map_evens_padMat b.f H npx hx hb.fr, map_odds_padMat b.f H npx hx hb.fr,
+    hF _ hfe (by simp [hb.fl]), hF _ hfo (by simp [hb.fl])]
+
 /-- the resolved block of a padded array is the unpadded array, the rest is zero -/
 theorem cropMat_padMat (a : List (List K)) (c pr pc : Nat) (h : ∀ r ∈ a, r.length = c) :
     cropMat (padMat a c pr pc) a.length c = a := by
@@ -848,6 +1179,31 @@ example : fastAnalysis (padBasis bEx 2 1 2 1 1 2 1) 4 2 3 (padMat [[1], [2]] 1 1
   fastAnalysis_padded bEx 2 1 1 2 1 1 1 1 bEx_shaped _ rfl (by decide)
 
 example : fastAnalysis bEx 2 1 2 [[1], [2]] = [[245, 294], [350, 420]] := by decide +kernel
+
+/-- non-vacuity of the second form: NON-ZERO garbage on every padding row and column of the input (modal:
+ column 2 and rows 2, 3; nodal: column 1 and row 2) — the outputs are those of the zero-padded inputs above -/
+def xGarb : List (List ℚ) := [[1, 2, 99], [3, 4, -7], [11, 12, 13], [14, 15, 16]]
+def zGarb : List (List ℚ) := [[1, 50], [2, -60], [70, 80]]
+
+example : fastSynth (padBasis bEx 2 1 2 1 1 2 1) 2 xGarb = padMat (fastSynth bEx 1 [[1, 2], [3, 4]]) 1 1 1 :=
+  fastSynth_padded_any bEx 2 1 1 2 1 1 1 1 bEx_shaped _ xGarb rfl (by decide) (by decide +kernel)
+
+example : fastSynthStacked (padBasis bEx 2 1 2 1 1 2 1) 2 xGarb
+    = padMat (fastSynthStacked bEx 1 [[1, 2], [3, 4]]) 1 1 1 :=
+  fastSynthStacked_padded_any bEx 2 1 1 2 1 1 1 1 bEx_shaped _ xGarb rfl (by decide) (by decide +kernel)
+
+example : fastAnalysis (padBasis bEx 2 1 2 1 1 2 1) 4 2 3 zGarb = padMat (fastAnalysis bEx 2 1 2 [[1], [2]]) 2 2 1 :=
+  fastAnalysis_padded_any bEx 2 1 1 2 1 1 1 1 bEx_shaped _ zGarb rfl (by decide) (by decide +kernel)
+
+example : fastAnalysisStacked (padBasis bEx 2 1 2 1 1 2 1) 4 2 3 zGarb
+    = padMat (fastAnalysisStacked bEx 2 1 2 [[1], [2]]) 2 2 1 :=
+  fastAnalysisStacked_padded_any bEx 2 1 1 2 1 1 1 1 bEx_shaped _ zGarb rfl (by decide) (by decide +kernel)
+
+/-- the same by evaluation: garbage in, exactly the zero-padded unpadded results out -/
+example : fastSynth (padBasis bEx 2 1 2 1 1 2 1) 2 xGarb = [[95, 0], [207, 0], [0, 0]]
+    ∧ fastAnalysis (padBasis bEx 2 1 2 1 1 2 1) 4 2 3 zGarb = [[245, 294, 0], [350, 420, 0], [0, 0, 0], [0, 0, 0]]
+    ∧ cropMat xGarb 2 2 = [[1, 2], [3, 4]] ∧ cropMat zGarb 2 1 = [[1], [2]] := by
+  refine ⟨?_, ?_, ?_, ?_⟩ <;> decide +kernel
 
 end basis
 
